@@ -85,5 +85,35 @@ fn vp_native_multipart_roundtrip() {
             }
         }
     } } } }
+    // larger forms, names and filenames with blanks / non-ASCII / '=', MIME types with parameters, empty and 1-byte files
+    let names = ["plain", "with space", "ünï-cødé", "a=b", "x"];
+    let mimes = [None, Some("text/plain; charset=utf-8"), Some("application/x-custom+json"), Some("image/svg+xml")];
+    for ntext in [0usize, 1, 5] { for nfiles in [0usize, 1, 3, 4] { for variant in 0..4usize {
+        let mut b = MultipartBuilder::new();
+        let mut want: Vec<Part> = Vec::new();
+        let texts: Vec<(String, String)> = (0..ntext).map(|i| (format!("{} {}", names[(i + variant) % names.len()], i), format!("value {} of field — {}\r\n--", i, names[i % names.len()]))).collect();
+        let fdata: Vec<Vec<u8>> = (0..nfiles).map(|i| data((i + variant) % 3, [0usize, 1, 100, 9000][(i + variant) % 4])).collect();
+        let fnames: Vec<String> = (0..nfiles).map(|i| format!("file {} {}", names[(i + 2 * variant) % names.len()], i)).collect();
+        let ffile: Vec<String> = (0..nfiles).map(|i| format!("{} {}.bin", names[(i + 1) % names.len()], i)).collect();
+        for (k, v) in &texts { b = b.with_text(k, v); want.push(Part { name: k.clone(), filename: None, ctype: None, data: v.clone().into_bytes() }); }
+        for i in 0..nfiles {
+            let mut f = MultipartFile::new(&fnames[i], &fdata[i]);
+            let with_name = (i + variant) % 2 == 0;
+            if with_name { f = f.with_filename(&ffile[i]); }
+            let m = mimes[(i + variant) % mimes.len()];
+            if let Some(m) = m { f = f.with_type(m).unwrap(); }
+            b = b.with_file(f);
+            want.push(Part { name: fnames[i].clone(), filename: if with_name { Some(ffile[i].clone()) } else { None }, ctype: Some(m.unwrap_or("application/octet-stream").to_string()), data: fdata[i].clone() });
+        }
+        let mut mp = b.build().expect("building a form must not fail");
+        let ct = mp.content_type().unwrap().unwrap();
+        let boundary = ct.strip_prefix("multipart/form-data; boundary=").expect("content type announces the boundary").to_string();
+        let mut body = Vec::new(); mp.write(&mut body).unwrap(); cases += 1;
+        let mut got = decode(&body, &boundary).unwrap_or_else(|e| panic!("body does not decode ({}): {} text fields, {} files, variant {}", e, ntext, nfiles, variant));
+        let key = |p: &Part| (p.name.clone(), p.data.len());
+        got.sort_by_key(key); want.sort_by_key(key);
+        assert!(got == want, "decoded parts differ ({} text fields, {} files, variant {}): got {:?} want {:?}", ntext, nfiles, variant,
+                got.iter().map(|p| (p.name.clone(), p.filename.clone(), p.ctype.clone(), p.data.len())).collect::<Vec<_>>(), want.iter().map(|p| (p.name.clone(), p.filename.clone(), p.ctype.clone(), p.data.len())).collect::<Vec<_>>());
+    } } }
     println!("VP-NATIVE multipart_roundtrip cases={}", cases);
 }
